@@ -14,16 +14,19 @@ SPEC = "spec"
 SHARD = 150
 RULE = ("L2 histories of GER insertions/removals over 8..24 blocks (8..48 thorough) with event density 15..100%, 1..4 segments per node "
         "life (start / restart on the same database / reorg notification with a regenerated fork), 1..7 polls per segment with "
-        "cadence one-block-per-poll, faster-than-blocks, or 0..7 blocks per poll (and occasional stale tips); ten seed-independent "
+        "cadence one-block-per-poll, faster-than-blocks, or 0..7 blocks per poll (and occasional stale tips); sixteen seed-independent "
         "boundary cases first; 10% of the cases carry several events per block (outside the property's quantifier: correspondence "
-        "only). A case is non-trivial when, in some segment, a poll returns a tip higher than every tip polled before in that "
+        "only); 4% of the cases let the tip jump by 1001..5000 blocks between two polls (running downloader, first poll after a "
+        "restart, restart again afterwards) with events right before/at/after every multiple-of-1000 offset from the block the "
+        "downloader resumes at; in 25% of the cases the L1 info tree syncer lags (the first 1..3 lookups of a root answer not-found). A case is non-trivial when, in some segment, a poll returns a tip higher than every tip polled before in that "
         "segment (block 0 before the first poll) and a block carrying a GER event lies strictly between the two; distinct = "
         "distinct input")
 ASSUMPTIONS = [
     "at most one GER-manager event per L2 block (the property's quantifier; PRIMARY KEY(block_num) declares it)",
     "a reorg is what the reorg detector notifies to the driver: first reorged block b, chain replaced from b on; reorgs the detector "
     "never reports (above the last tracked block) are outside the model",
-    "l1InfoTreeSync.GetInfoByGlobalExitRoot is a function root -> index (oracle); RPC errors / retry loops are not scripted",
+    "l1InfoTreeSync.GetInfoByGlobalExitRoot is eventually a function root -> index (oracle): a lagging syncer (not-found for the first "
+    "k lookups of a root) is scripted and the model treats the downloader's retry loop as waiting for the answer; RPC errors are not scripted",
     "SQLite (transactions, ORDER BY, FK cascade), go-ethereum ABI log parsing and the goroutine/channel plumbing of sync.EVMDriver "
     "are exercised by the correspondence only",
     "FEP mode (evmdownloader_fep.go, contract polling) is NOT covered; only the processor it shares with PP mode is",
@@ -192,13 +195,17 @@ def finding_key(o):
 def distribution(outs):
     d = {"cases": len(outs), "multi_event_blocks": 0, "segments": 0, "restarts": 0, "reorgs": 0, "polls": 0,
          "delivered_blocks": 0, "answers_found": 0, "answers_not_found": 0, "stuck": 0, "tip_jump_over_event": 0,
-         "removals_in_history": 0}
+         "removals_in_history": 0, "tip_jump_over_1000_blocks": 0, "lagging_l1_info_lookup": 0}
     for o in outs:
         i = o["in"]
         if not _one_per_block(i):
             d["multi_event_blocks"] += 1
         if nontrivial_key(o) is not None:
             d["tip_jump_over_event"] += 1
+        if any(b - a > 1000 for s in i["segs"] for a, b in zip([0] + s["polls"], s["polls"])):
+            d["tip_jump_over_1000_blocks"] += 1
+        if any(g.get("lag") for g in i["gers"]):
+            d["lagging_l1_info_lookup"] += 1
         d["removals_in_history"] += sum(1 for e in (i["hist"] or []) if e["rm"])
         for k, s in enumerate(i["segs"]):
             d["segments"] += 1
